@@ -12,6 +12,7 @@ import builtins
 import os
 import shutil
 import tempfile
+import time
 import types
 
 import numpy as np
@@ -256,6 +257,8 @@ class FakeNP:
 
     def savez(self, filename, **arrays):
         self.store[str(filename)] = dict(arrays)
+        with open(str(filename), "w") as fh:  # the path exists on disk (code may stat it); the content lives in memory
+            fh.write("in-memory npz stand-in\n")
 
     savez_compressed = savez
 
@@ -282,6 +285,9 @@ def npz_job(job_id, case="generic", B=2, n=2, source_filter=None):
         return [{"kind": "script", "path": core.ROOT + "/vf/torch_side", "module": "persist_side", "func": "run_cvrp_bits", "model_kind": "plain", "mode": "C19",
                  "params": {"d": [m.eval(x, model_completion=True).as_long() for x in hold_bits["dv"]], "caps": hold_bits["caps"]}}]
 
+    tmpd = tempfile.mkdtemp(prefix="verif_c19_")
+    MEM = os.path.join(tmpd, "mem.npz")
+
     def harness():
         du = w.load("rl4co.data.utils")
         fnp = FakeNP()
@@ -290,8 +296,8 @@ def npz_job(job_id, case="generic", B=2, n=2, source_filter=None):
             td = TensorDict({"locs": T.sym_tensor("locs", (B, n, 2), T.float32), "demand": T.sym_tensor("dem", (B, n), T.float32), "num_agents": T.sym_tensor("na", (B,), T.int64),
                              "flag": T.sym_tensor("fl", (B, 1), T.bool_)}, batch_size=[B])
             for compress in (False, True):
-                du.save_tensordict_to_npz(td, "mem.npz", compress=compress)
-                back = du.load_npz_to_tensordict("mem.npz")
+                du.save_tensordict_to_npz(td, MEM, compress=compress)
+                back = du.load_npz_to_tensordict(MEM)
                 ctx.prove(E, f"[npz compress={compress}] same keys", set(back.keys()) == set(td.keys()), cexb)
                 ctx.prove(E, f"[npz compress={compress}] batch size preserved", list(back.batch_size) == [B], cexb)
                 for k in td.keys():
@@ -305,11 +311,15 @@ def npz_job(job_id, case="generic", B=2, n=2, source_filter=None):
             dem, cap = T.sym_tensor("dem", (B, n), T.float32), T.sym_tensor("cap", (B,), T.float32)
             for x in cap.a:
                 E.assume(x > 0)
-            fnp.savez("mem.npz", locs=T.sym_tensor("locs", (B, n, 2), T.float32), depot=T.sym_tensor("dep", (B, 2), T.float32), demand=dem, capacity=cap)
-            back = envm.CVRPEnv.load_data("mem.npz")
+            fnp.savez(MEM, locs=T.sym_tensor("locs", (B, n, 2), T.float32), depot=T.sym_tensor("dep", (B, 2), T.float32), demand=dem, capacity=cap)
+            back = envm.CVRPEnv.load_data(MEM)
             if E.obligations:
                 obs, E.obligations = E.obligations, []
                 ctx.prove(E, f"[cvrp load_data] library preconditions ({obs[0][0]}, ...)", z3.And(*[_bool(c) for _, c in obs]), cexb)
+            again = envm.CVRPEnv.load_data(MEM)  # the same unchanged file is loaded again (val and test file, fit then test)
+            E.obligations = []
+            ctx.prove(E, "[cvrp load_data] loading the same file a second time gives the same instances (not normalised twice)",
+                      tuple(again["demand"].shape) == (B, n) and all_([T.s_eq(again["demand"].a[b, j], T.s_div(dem.a[b, j], cap.a[b])) for b in range(B) for j in range(n)]), cexb)
             ok = tuple(back["demand"].shape) == (B, n)
             ctx.prove(E, "[cvrp load_data] demand keeps its shape [B, n]", ok, cexb)
             if ok:
@@ -343,8 +353,8 @@ def npz_job(job_id, case="generic", B=2, n=2, source_filter=None):
                 for x in dv:
                     E.assume(z3.And(z3.UGE(x, 1), z3.ULE(x, 9)))
                 nb = len(caps)
-                fnp.savez("mem.npz", locs=T.zeros(nb, n, 2), depot=T.zeros(nb, 2), demand=T.Tensor(np.array(rows_d, dtype=object), T.float32), capacity=T.tensor(caps, dtype=T.float32))
-                back = envm.CVRPEnv.load_data("mem.npz")
+                fnp.savez(MEM, locs=T.zeros(nb, n, 2), depot=T.zeros(nb, 2), demand=T.Tensor(np.array(rows_d, dtype=object), T.float32), capacity=T.tensor(caps, dtype=T.float32))
+                back = envm.CVRPEnv.load_data(MEM)
                 E.obligations = []
                 hold_bits.update(dv=dv, caps=caps)
                 for b, c in enumerate(caps):
@@ -359,10 +369,10 @@ def npz_job(job_id, case="generic", B=2, n=2, source_filter=None):
             dl, db, cap = T.sym_tensor("dl", (B, n), T.float32), T.sym_tensor("db", (B, n), T.float32), T.sym_tensor("cap", (B, 1), T.float32)
             for x in cap.a.reshape(-1):
                 E.assume(x > 0)
-            fnp.savez("mem.npz", demand_linehaul=dl, demand_backhaul=db, capacity_original=cap)
+            fnp.savez(MEM, demand_linehaul=dl, demand_backhaul=db, capacity_original=cap)
             env = object.__new__(envm.MTVRPEnv)
             for scale in (False, True):
-                back = envm.MTVRPEnv.load_data(env, "mem.npz", scale=scale)
+                back = envm.MTVRPEnv.load_data(env, MEM, scale=scale)
                 E.obligations = []
                 ctx.prove(E, f"[mtvrp load_data scale={scale}] demands are {'divided by the original capacity of their instance' if scale else 'unchanged'}",
                           all_([s_and(T.s_eq(back["demand_linehaul"].a[b, j], T.s_div(dl.a[b, j], cap.a[b, 0]) if scale else dl.a[b, j]),
@@ -374,6 +384,95 @@ def npz_job(job_id, case="generic", B=2, n=2, source_filter=None):
         E.run(harness)
     except explore.Inconclusive as e:
         return ctx.result(E, w, status="inconclusive", error=str(e))
+    finally:
+        shutil.rmtree(tmpd, ignore_errors=True)
     if not ctx.obligations:
         return ctx.result(E, w, status="error", error="vacuous")
     return ctx.result(E, w)
+
+
+def crosshair_job(job_id, func="check_extension", maxlen=7, source_filter=None):
+    """string-level helper of the data-file path, executed symbolically by CrossHair (z3, symbolic `str`) from the function's
+    own source text: `check_extension` (used to name generated dataset files and to find them again) only ever APPENDS the
+    extension -- it never removes characters, and leaves a name alone only if it already ends with the extension."""
+    import ast
+    import hashlib
+    import re
+    import subprocess
+    import sys
+
+    ctx = core.Ctx(job_id)
+    path = os.path.join(core.REPO, "rl4co/data/utils.py")
+    src = open(path).read()
+    if source_filter is not None:
+        src = source_filter(path, src)
+    ctx.bounds = {"function": f"rl4co/data/utils.py:{func}", "len(filename)": f"<= {maxlen}", "engine": "crosshair-tool (symbolic str over z3), per-condition timeout 90 s"}
+    ctx.stubs.add("the function is extracted from the module source and executed alone (module-level imports of numpy / tensordict are not needed by it)")
+    fn = [n for n in ast.parse(src).body if isinstance(n, ast.FunctionDef) and n.name == func]
+    if not fn:
+        return dict(ctx.result(None), status="error", error=f"{func} not found")
+    tmp = tempfile.mkdtemp(prefix="verif_c19_")
+    t0 = time.time()
+    try:
+        code = "import os\n\n\n" + ast.get_source_segment(src, fn[0]) + f'''
+
+
+def _contract(filename: str) -> str:
+    """
+    pre: len(filename) <= {maxlen}
+    post: (_ == filename + ".npz") or (_ == filename and len(filename) >= 4 and filename[len(filename) - 4:] == ".npz")
+    """
+    return {func}(filename)
+
+
+def _reachability_twin(filename: str) -> str:
+    """
+    pre: len(filename) <= {maxlen}
+    post: False
+    """
+    return {func}(filename)
+'''
+        mod = os.path.join(tmp, "ce_mod.py")
+        with open(mod, "w") as fh:
+            fh.write(code)
+        p = subprocess.run([sys.executable, "-m", "crosshair", "check", "--report_all", "--per_condition_timeout", "90", mod], capture_output=True, text=True, timeout=600)
+        out = p.stdout + p.stderr
+        lines = [ln for ln in out.splitlines() if "ce_mod.py" in ln]
+        contract_line = code[: code.index("def _contract")].count("\n") + 1
+        twin_line = code[: code.index("def _reachability_twin")].count("\n") + 1
+
+        def verdict(first_line, last_line):
+            for ln in lines:
+                m = re.search(r"ce_mod\.py:(\d+): (\w+): (.*)", ln)
+                if m and first_line <= int(m.group(1)) <= last_line:
+                    return m.group(2), m.group(3)
+            return None, out[-300:]
+
+        kind, text = verdict(contract_line, twin_line - 1)
+        tk, tt = verdict(twin_line, twin_line + 10)
+        ctx.obligations += 2
+        name = f"[{func}] the result is the name with '.npz' appended, or the unchanged name if it already ends with '.npz' (len <= {maxlen})"
+        if tk == "error":
+            ctx.discharged += 1  # the twin's `post: False` is refuted: the contract is reachable
+        else:
+            ctx.inconclusive += 1
+            ctx.notes.append(f"inconclusive: reachability twin not refuted ({tk}: {tt[:120]})")
+        if kind == "info" and "Confirmed over all paths" in text:
+            ctx.discharged += 1
+            ctx.sample({"obligation": name, "job": job_id, "verdict": "confirmed over all paths (crosshair)"})
+        elif kind == "error" and "false when calling" in text:
+            m = re.search(r"_contract\((.*?)\) \(which returns", text)
+            arg = ast.literal_eval(m.group(1)) if m else None
+            ctx.cex.append({"obligation": name, "job": job_id, "desc": text, "replay": [{"kind": "script", "path": core.ROOT + "/vf/torch_side", "module": "persist_side", "func": "run_check_extension", "model_kind": "plain", "mode": "C19", "params": {"filename": arg}}] if isinstance(arg, str) else None})
+        else:
+            ctx.inconclusive += 1
+            ctx.notes.append(f"inconclusive: {name}: crosshair says {kind}: {text[:160]}")
+        res = ctx.result(None)
+        res["solver_s"] = round(time.time() - t0, 2)
+        res["queries"] = {"sat": 1 if ctx.cex else 0, "unsat": ctx.discharged, "unknown": ctx.inconclusive}
+        res["paths"] = 1
+        res["sources"] = {"rl4co/data/utils.py": hashlib.sha256(src.encode()).hexdigest()[:16]}
+        res["states"], res["transitions"] = 1, 1
+        return res
+    finally:
+        shutil.rmtree(tmp, ignore_errors=True)
